@@ -13,6 +13,8 @@ from __future__ import annotations
 
 from typing import Optional, Union
 
+from jax.dtypes import result_type
+
 import scico.numpy as snp
 from scico.numpy import Array, BlockArray
 from scico.numpy.util import broadcast_nested_shapes, is_nested
@@ -64,7 +66,7 @@ class Diagonal(LinearOperator):
             input_shape=input_shape,
             input_dtype=input_dtype,
             output_shape=output_shape,
-            output_dtype=input_dtype,
+            output_dtype=result_type(self._diagonal.dtype, input_dtype),
             **kwargs,
         )
 
